@@ -168,6 +168,7 @@ def c15 (fn : String) (r : Req) : Option (String × String) :=
         some (cm ++ ";" ++ cs, cs ++ ";" ++ cs)
     | _, _ => some ("?type", "?type")
   | "c15_tdopt" => some ("OK", "OK")   -- relational run judged by the harness on the implementation alone
+  | "c15_negz" => some ("OK", "OK")    -- relational run (signed zero through the casts), judged likewise
   | "c15_ord" =>
     match Ty.ofName (r.str "ty") with
     | none => some ("?type", "?type")
